@@ -42,7 +42,7 @@ theorem c14_tally_never_panics (g : GenCfg) (s : State) (h : FineReach g EntQ s)
   tally_total s.ent now (bookInv_reachable g s h)
 
 /-- EndBlock (governance-executed messages: each all-or-nothing) and Commit are total functions of the model -/
-theorem c14_end_block_and_commit_total (n : Node) (wall : Nat) (govs : List Msg) :
+theorem c14_end_block_and_commit_total (n : Node) (wall : Nat) (govs : List (List Msg)) :
     ∃ n' rs, n.endBlock wall govs = (n', rs) ∧ ∃ n'', n'.commit = n'' := ⟨_, _, rfl, _, rfl⟩
 
 /-- what the ante chain alone may change: fee balances and the locked/spent books (the fee unlock).
